@@ -8,8 +8,9 @@ import Anything.Lemmas.C06Builder
 at forest position `n`) is the concatenation of one segment per stack frame, bottom frame first;
 the segment of a frame `(cell, priority, _)` matched with the abstract frame `(acc, o)` of the
 specification-level machine (`Lemmas/C06Shift.lean`) reads `x₀ o₁ x₁ … oₖ xₖ o` — an operand
-chain representing `acc` followed by the node of the pending operator `o` — and the frame's
-checkpoint cell points at the start of the segment.
+chain representing `acc`, all of whose operators have the priority of `o` (`RepresentsL`,
+`FoldRL`), followed by the node of the pending operator `o` — and the frame's checkpoint cell
+points at the start of the segment.
 -/
 
 namespace Anything.C06
@@ -26,21 +27,21 @@ theorem opKids_ws {W : List Tree} (h : WSTrees W) : opKids W = [] := by
   obtain ⟨id, text, rfl⟩ := h t ht
   simp [Tree.hasChildren]
 
-theorem foldR_snoc {R : Tree → NExpr → Prop} {acc e b : NExpr} {ts : List Tree} {o x : Tree}
-    {op : BinOp} (h : FoldR R acc ts e) (ho : o.kind = opKind op) (hx : R x b) :
-    FoldR R acc (ts ++ [o, x]) (.bin op e b) := by
+theorem foldRL_snoc {R : Tree → NExpr → Prop} {p : Nat} {acc e b : NExpr} {ts : List Tree}
+    {o x : Tree} {op : BinOp} (h : FoldRL R p acc ts e) (ho : o.kind = opKind op)
+    (hp : op.prio = p) (hx : R x b) : FoldRL R p acc (ts ++ [o, x]) (.bin op e b) := by
   induction h with
-  | nil acc => exact .cons ho hx (.nil _)
-  | cons h1 h2 _ ih => exact .cons h1 h2 ih
+  | nil p acc => exact .cons ho hp hx (.nil _ _)
+  | cons h1 h2 h3 _ ih => exact .cons h1 h2 h3 (ih hp)
 
-/-- An operand chain without a pending operator. -/
-def OpenSeg (Y : List Tree) (v : NExpr) : Prop :=
-  ∃ y ys e₀, opKids Y = y :: ys ∧ Represents y e₀ ∧ FoldR Represents e₀ ys v
+/-- An operand chain of level `p` without a pending operator. -/
+def OpenSeg (p : Nat) (Y : List Tree) (v : NExpr) : Prop :=
+  ∃ y ys e₀, opKids Y = y :: ys ∧ RepresentsL y e₀ ∧ FoldRL RepresentsL p e₀ ys v
 
-/-- An operand chain followed by the node of the pending operator. -/
+/-- An operand chain of the level of `o` followed by the node of the pending operator `o`. -/
 def SegOK (S : List Tree) (acc : NExpr) (o : BinOp) : Prop :=
-  ∃ y ys e₀ on, opKids S = y :: (ys ++ [on]) ∧ Represents y e₀ ∧
-    FoldR Represents e₀ ys acc ∧ on.kind = opKind o
+  ∃ y ys e₀ on, opKids S = y :: (ys ++ [on]) ∧ RepresentsL y e₀ ∧
+    FoldRL RepresentsL o.prio e₀ ys acc ∧ on.kind = opKind o
 
 theorem node_hasChildren {id : Nat} {k : Syntax} {ks : List Tree} {x : Tree} {r : List Tree}
     (h : opKids ks = x :: r) : (Tree.node id k ks).hasChildren = true := by
@@ -48,7 +49,7 @@ theorem node_hasChildren {id : Nat} {k : Syntax} {ks : List Tree} {x : Tree} {r 
   | nil => simp [opKids] at h
   | cons _ _ => rfl
 
-theorem hasChildren_of_represents {x : Tree} {e : NExpr} (h : Represents x e) :
+theorem hasChildren_of_represents {x : Tree} {e : NExpr} (h : RepresentsL x e) :
     x.hasChildren = true := by
   cases h with
   | num _ hc _ _ => exact hc
@@ -61,10 +62,10 @@ theorem hasChildren_of_represents {x : Tree} {e : NExpr} (h : Represents x e) :
 theorem opKids_single {x : Tree} (h : x.hasChildren = true) : opKids [x] = [x] := by
   simp [opKids, h]
 
-theorem openSeg_single {W : List Tree} {x : Tree} {e : NExpr} (hW : WSTrees W)
-    (hx : Represents x e) : OpenSeg (W ++ [x]) e :=
+theorem openSeg_single {W : List Tree} {x : Tree} {e : NExpr} (p : Nat) (hW : WSTrees W)
+    (hx : RepresentsL x e) : OpenSeg p (W ++ [x]) e :=
   ⟨x, [], e, by rw [opKids_append, opKids_ws hW, opKids_single (hasChildren_of_represents hx)]; rfl,
-    hx, .nil _⟩
+    hx, .nil _ _⟩
 
 theorem segOK_ws {S W : List Tree} {acc : NExpr} {o : BinOp} (h : SegOK S acc o) (hW : WSTrees W) :
     SegOK (S ++ W) acc o := by
@@ -73,28 +74,27 @@ theorem segOK_ws {S W : List Tree} {acc : NExpr} {o : BinOp} (h : SegOK S acc o)
 
 /-- Equal priority: the frame absorbs the operand. -/
 theorem segOK_extend {S : List Tree} {x : Tree} {acc b : NExpr} {o : BinOp} (h : SegOK S acc o)
-    (hx : Represents x b) : OpenSeg (S ++ [x]) (.bin o acc b) := by
+    (hx : RepresentsL x b) : OpenSeg o.prio (S ++ [x]) (.bin o acc b) := by
   obtain ⟨y, ys, e₀, on, hk, hy, hf, ho⟩ := h
-  refine ⟨y, ys ++ [on, x], e₀, ?_, hy, foldR_snoc hf ho hx⟩
+  refine ⟨y, ys ++ [on, x], e₀, ?_, hy, foldRL_snoc hf ho rfl hx⟩
   rw [opKids_append, hk, opKids_single (hasChildren_of_represents hx)]
   simp
 
-/-- Higher priority on the stack: the frame is closed into one OPERATION node. -/
+/-- Higher priority on the stack: the frame is closed into one OPERATION node, all of whose
+operators have the priority of the frame. -/
 theorem segOK_close {S : List Tree} {x : Tree} {acc b : NExpr} {o : BinOp} (id : Nat)
-    (h : SegOK S acc o) (hx : Represents x b) :
-    Represents (.node id .OPERATION (S ++ [x])) (.bin o acc b) := by
+    (h : SegOK S acc o) (hx : RepresentsL x b) :
+    RepresentsL (.node id .OPERATION (S ++ [x])) (.bin o acc b) := by
   obtain ⟨y, ys, e₀, hk, hy, hf⟩ := segOK_extend h hx
   refine .chain hk ?_ hy hf
   intro hnil
   subst hnil
-  cases hf
-  -- `ys = []` would make the represented expression `e₀` a `bin`; the chain has ≥ 3 elements
   obtain ⟨y', ys', e₀', on, hk', _, _, _⟩ := h
   rw [opKids_append, hk', opKids_single (hasChildren_of_represents hx)] at hk
   simp at hk
 
 /-- The operator node is appended: an open segment becomes a frame segment. -/
-theorem openSeg_op {Y W : List Tree} {on : Tree} {v : NExpr} {o : BinOp} (h : OpenSeg Y v)
+theorem openSeg_op {Y W : List Tree} {on : Tree} {v : NExpr} {o : BinOp} (h : OpenSeg o.prio Y v)
     (hW : WSTrees W) (hon : on.kind = opKind o) (hc : on.hasChildren = true) :
     SegOK (Y ++ W ++ [on]) v o := by
   obtain ⟨y, ys, e₀, hk, hy, hf⟩ := h
